@@ -107,7 +107,7 @@ func (t *Token) EncodeWriter(w io.Writer, privKey crypto.PrivKey, encFn codec.En
 		return err
 	}
 
-	return ipld.EncodeStreaming(w, node, encFn)
+	return envelope.EncodeStreaming(w, node, encFn)
 }
 
 // ToDagCbor marshals the Token to the DAG-CBOR format.
